@@ -1,0 +1,409 @@
+//go:build verif
+
+// Contracts for the verification machinery in /verif (comment-only; never compiled into a binary).
+// Property C07: devices are never over-committed and device accounting balances.
+
+package deviceshare
+
+// podNN(ns, name) names the map key types.NamespacedName{Namespace: ns, Name: name} (the spec language has no struct
+// literals): an uninterpreted function pinned down by the definitional precondition nnDef. It keeps podIn quantifier-free.
+//@ spec func podNN(ns string, name string) types.NamespacedName
+//@ spec func nnDef(ns string, name string) bool = podNN(ns, name).Namespace == ns && podNN(ns, name).Name == name
+// podIn(set, ns, name): the pod ns/name has an entry in a per-type allocate set.
+//@ spec func podIn(set map[types.NamespacedName]deviceResources, ns string, name string) bool = has(set, podNN(ns, name))
+
+// The per-type allocate sets are distinct objects (isValid / updateAllocateSet only install freshly made ones).
+//@ spec func allocSetOK(n *nodeDevice) bool = n != nil && n.allocateSet != nil && (forall t schedulingv1alpha1.DeviceType, u schedulingv1alpha1.DeviceType :: t != u && n.allocateSet[t] != nil ==> n.allocateSet[t] != n.allocateSet[u])
+
+//@ func (*nodeDevice).isValid [C07]
+//@   requires allocSetOK(n) && nnDef(namespace, name)
+//@   ensures #ok: allocSetOK(n)
+//@   ensures #iff: result <==> (add <==> !old(podIn(n.allocateSet[deviceType], namespace, name)))
+//@   ensures #inner: has(n.allocateSet, deviceType) && n.allocateSet[deviceType] != nil
+//@   ensures #same: old(n.allocateSet[deviceType]) != nil ==> n.allocateSet[deviceType] == old(n.allocateSet[deviceType])
+//@   ensures #new: old(n.allocateSet[deviceType]) == nil ==> fresh(n.allocateSet[deviceType]) && len(n.allocateSet[deviceType]) == 0
+//@   ensures #others: forall t schedulingv1alpha1.DeviceType :: t != deviceType ==> n.allocateSet[t] == old(n.allocateSet[t]) && has(n.allocateSet, t) == old(has(n.allocateSet, t))
+//@   modifies contents(n.allocateSet)
+
+// ---- deviceResources helpers ----
+
+// Loops that allocate ResourceLists (make / DeepCopy) make the engine forget the whole ResourceList heap family and its
+// frame check wants row equality, which a value-level invariant cannot give. Such functions therefore declare
+// `modifies allmaps(<a ResourceList>)` and prove the value-level frame rlSame() instead: every ResourceList that existed
+// on entry has the same keys and amounts on exit.
+//@ spec func rlSame() bool = forall q corev1.ResourceList, rn corev1.ResourceName :: {val(q, rn)} {has(q, rn)} allocated(q) ==> val(q, rn) == old(val(q, rn)) && has(q, rn) == old(has(q, rn))
+
+//@ func (deviceResources).DeepCopy [C07]
+//@   let touch = r[0]   // materialises the deviceResources heap before the loop (engine drops range facts of heaps first read in a loop's dry run)
+//@   ensures #nil: r == nil ==> result == nil
+//@   ensures #fresh: r != nil ==> fresh(result)
+//@   ensures #dom: forall m int :: has(result, m) == has(r, m)
+//@   ensures #val: forall m int, rn corev1.ResourceName :: val(result[m], rn) == val(r[m], rn) && has(result[m], rn) == has(r[m], rn)
+//@   ensures #rlframe: rlSame()
+//@   modifies allmaps(r[0])
+//@   loop 1 invariant out != nil && fresh(out) && out != r
+//@   loop 1 invariant forall m int :: has(out, m) <==> ($seen[m] && has(r, m))
+//@   loop 1 invariant forall m int, rn corev1.ResourceName :: has(out, m) ==> val(out[m], rn) == val(r[m], rn) && has(out[m], rn) == has(r[m], rn)
+//@   loop 1 invariant rlSame()
+
+// ---- the per-node ledgers ----
+
+// Data-structure invariant: the three ledgers are distinct non-nil maps and no two of their per-type inner maps are the
+// same object (newNodeDevice / resetDeviceFree / updateDeviceUsed / filter only ever install freshly made inner maps).
+//@ spec func ledgersOK(n *nodeDevice) bool = n != nil && n.deviceTotal != nil && n.deviceFree != nil && n.deviceUsed != nil && n.deviceTotal != n.deviceFree && n.deviceTotal != n.deviceUsed && n.deviceFree != n.deviceUsed
+//@ spec func innerDistinct(n *nodeDevice) bool = forall t schedulingv1alpha1.DeviceType, u schedulingv1alpha1.DeviceType :: (n.deviceTotal[t] != nil ==> n.deviceTotal[t] != n.deviceUsed[u] && n.deviceTotal[t] != n.deviceFree[u] && (t != u ==> n.deviceTotal[t] != n.deviceTotal[u])) && (n.deviceUsed[t] != nil ==> n.deviceUsed[t] != n.deviceFree[u] && (t != u ==> n.deviceUsed[t] != n.deviceUsed[u])) && (n.deviceFree[t] != nil && t != u ==> n.deviceFree[t] != n.deviceFree[u])
+
+// Amount of resource r on minor m of type t in each ledger (0 when the type, the minor or the resource is absent).
+//@ spec func tot(n *nodeDevice, t schedulingv1alpha1.DeviceType, m int, r corev1.ResourceName) real = val(n.deviceTotal[t][m], r)
+//@ spec func usd(n *nodeDevice, t schedulingv1alpha1.DeviceType, m int, r corev1.ResourceName) real = val(n.deviceUsed[t][m], r)
+//@ spec func fre(n *nodeDevice, t schedulingv1alpha1.DeviceType, m int, r corev1.ResourceName) real = val(n.deviceFree[t][m], r)
+//@ spec func hasTot(n *nodeDevice, t schedulingv1alpha1.DeviceType, m int, r corev1.ResourceName) bool = has(n.deviceTotal[t][m], r)
+//@ spec func hasUsd(n *nodeDevice, t schedulingv1alpha1.DeviceType, m int, r corev1.ResourceName) bool = has(n.deviceUsed[t][m], r)
+//@ spec func hasFre(n *nodeDevice, t schedulingv1alpha1.DeviceType, m int, r corev1.ResourceName) bool = has(n.deviceFree[t][m], r)
+
+// All three ledgers of type t hold the same amounts (and the same set of in-use minors) as on entry.
+//@ spec func ledgerSame(n *nodeDevice, t schedulingv1alpha1.DeviceType) bool = forall m int, r corev1.ResourceName :: usd(n, t, m, r) == old(usd(n, t, m, r)) && fre(n, t, m, r) == old(fre(n, t, m, r)) && tot(n, t, m, r) == old(tot(n, t, m, r)) && has(n.deviceUsed[t], m) == old(has(n.deviceUsed[t], m))
+
+// free = max0(total - used) for every minor and resource of the type (whole-map statement; absent entries count as 0).
+//@ spec func freeBalanced(n *nodeDevice, t schedulingv1alpha1.DeviceType) bool = forall m int, r corev1.ResourceName :: fre(n, t, m, r) == max0(tot(n, t, m, r) - usd(n, t, m, r))
+
+// Inventory amounts are non-negative (Device CR quantities); only used as a hypothesis of the max0 form of the balance.
+//@ spec func totNonNeg(n *nodeDevice, t schedulingv1alpha1.DeviceType) bool = forall m int, r corev1.ResourceName :: tot(n, t, m, r) >= 0
+
+//@ func (*nodeDevice).resetDeviceFree [C07]
+//@   requires ledgersOK(n) && innerDistinct(n)
+//@   let touch = n.deviceFree[deviceType][0]
+//@   ensures #ok: ledgersOK(n) && innerDistinct(n)
+//@   ensures #free: forall m int, r corev1.ResourceName :: fre(n, deviceType, m, r) == (old(has(n.deviceUsed[deviceType], m)) ? max0(old(tot(n, deviceType, m, r)) - old(usd(n, deviceType, m, r))) : old(tot(n, deviceType, m, r)))
+//@   ensures #balanced: old(totNonNeg(n, deviceType)) ==> freeBalanced(n, deviceType)
+//@   ensures #used: n.deviceUsed[deviceType] == old(n.deviceUsed[deviceType]) && (forall m int, r corev1.ResourceName :: usd(n, deviceType, m, r) == old(usd(n, deviceType, m, r)) && has(n.deviceUsed[deviceType], m) == old(has(n.deviceUsed[deviceType], m)))
+//@   ensures #otherledgers: forall u schedulingv1alpha1.DeviceType :: u != deviceType ==> ledgerSame(n, u)
+//@   ensures #freekeys: forall m int, r corev1.ResourceName :: hasFre(n, deviceType, m, r) <==> old(hasTot(n, deviceType, m, r)) || old(hasUsd(n, deviceType, m, r))
+//@   ensures #freedom: forall m int :: has(n.deviceFree[deviceType], m) <==> old(has(n.deviceTotal[deviceType], m)) || old(has(n.deviceUsed[deviceType], m))
+//@   ensures #total: forall m int, r corev1.ResourceName :: tot(n, deviceType, m, r) == old(tot(n, deviceType, m, r)) && hasTot(n, deviceType, m, r) == old(hasTot(n, deviceType, m, r))
+//@   ensures #totaldom: forall m int :: has(n.deviceTotal[deviceType], m) <==> old(has(n.deviceTotal[deviceType], m)) || old(has(n.deviceUsed[deviceType], m))
+//@   ensures #totalobj: n.deviceTotal[deviceType] != nil && (old(n.deviceTotal[deviceType]) != nil ==> n.deviceTotal[deviceType] == old(n.deviceTotal[deviceType])) && (old(n.deviceTotal[deviceType]) == nil ==> fresh(n.deviceTotal[deviceType]))
+//@   ensures #freeobj: fresh(n.deviceFree[deviceType])
+//@   ensures #others: forall u schedulingv1alpha1.DeviceType :: u != deviceType ==> n.deviceFree[u] == old(n.deviceFree[u]) && n.deviceTotal[u] == old(n.deviceTotal[u]) && has(n.deviceFree, u) == old(has(n.deviceFree, u)) && has(n.deviceTotal, u) == old(has(n.deviceTotal, u))
+//@   ensures #rlframe: rlSame()
+//@   modifies contents(n.deviceFree), contents(n.deviceTotal), contents(n.deviceTotal[deviceType]), allmaps(n.deviceFree[deviceType][0])
+//@   loop 1 invariant n.deviceFree[deviceType] != nil && fresh(n.deviceFree[deviceType]) && n.deviceTotal[deviceType] != nil && n.deviceTotal[deviceType] != n.deviceFree[deviceType]
+//@   loop 1 invariant forall m int :: has(n.deviceFree[deviceType], m) <==> old(has(n.deviceTotal[deviceType], m)) || ($seen[m] && has(n.deviceUsed[deviceType], m))
+//@   loop 1 invariant forall m int :: has(n.deviceTotal[deviceType], m) <==> old(has(n.deviceTotal[deviceType], m)) || ($seen[m] && has(n.deviceUsed[deviceType], m))
+//@   loop 1 invariant forall m int, r corev1.ResourceName :: fre(n, deviceType, m, r) == (($seen[m] && has(n.deviceUsed[deviceType], m)) ? max0(old(tot(n, deviceType, m, r)) - old(usd(n, deviceType, m, r))) : old(tot(n, deviceType, m, r)))
+//@   loop 1 invariant forall m int, r corev1.ResourceName :: hasFre(n, deviceType, m, r) <==> old(hasTot(n, deviceType, m, r)) || ($seen[m] && old(hasUsd(n, deviceType, m, r)))
+//@   loop 1 invariant forall m int, r corev1.ResourceName :: tot(n, deviceType, m, r) == old(tot(n, deviceType, m, r)) && hasTot(n, deviceType, m, r) == old(hasTot(n, deviceType, m, r))
+//@   loop 1 invariant rlSame()
+
+// ---- committing / releasing one pod's allocation of one device type ----
+
+// An allocation list names each minor at most once (property wording: "the requested number of distinct devices").
+//@ spec func allocsOK(as []*apiext.DeviceAllocation) bool = (forall i int :: 0 <= i && i < len(as) ==> as[i] != nil) && (forall i int, j int :: 0 <= i && i < j && j < len(as) ==> as[i].Minor != as[j].Minor)
+//@ spec func minorOf(as []*apiext.DeviceAllocation, i int) int = int(as[i].Minor)
+//@ spec func amt(as []*apiext.DeviceAllocation, i int, r corev1.ResourceName) real = val(as[i].Resources, r)
+//@ spec func named(as []*apiext.DeviceAllocation, m int) bool = exists i int :: 0 <= i && i < len(as) && minorOf(as, i) == m
+
+// Virtual-function bookkeeping is outside the property; it only gets a (coarse, verified) frame: it touches nothing but
+// the VF allocation maps / sets, so the device ledgers are untouched by it.
+//@ spec func anyStrings() []string
+//@ func (*nodeDevice).updateCacheVFAllocations [C07]
+//@   requires n != nil
+//@   modifies allmaps(n.vfAllocations), all(VFAllocation).allocatedVFs, allmaps(n.vfAllocations[deviceType].allocatedVFs), allmaps(n.vfAllocations[deviceType].allocatedVFs[0]), allelems(anyStrings())
+
+//@ func (*nodeDevice).updateDeviceUsed [C07]
+//@   requires ledgersOK(n) && innerDistinct(n)
+//@   requires allocsOK(allocations)
+//@   let touch = n.deviceUsed[deviceType][0]
+//@   ensures #ok: ledgersOK(n) && innerDistinct(n)
+//@   ensures #add: add ==> (forall i int, r corev1.ResourceName :: 0 <= i && i < len(allocations) ==> usd(n, deviceType, minorOf(allocations, i), r) == old(usd(n, deviceType, minorOf(allocations, i), r)) + amt(allocations, i, r))
+//@   ensures #addkeys: add ==> (forall i int, r corev1.ResourceName :: 0 <= i && i < len(allocations) ==> (hasUsd(n, deviceType, minorOf(allocations, i), r) <==> old(hasUsd(n, deviceType, minorOf(allocations, i), r)) || has(allocations[i].Resources, r)))
+//@   ensures #adddom: add ==> has(n.deviceUsed, deviceType) && n.deviceUsed[deviceType] != nil && (forall i int :: 0 <= i && i < len(allocations) ==> has(n.deviceUsed[deviceType], minorOf(allocations, i)))
+//@   ensures #remove: !add ==> (forall i int, r corev1.ResourceName :: 0 <= i && i < len(allocations) ==> usd(n, deviceType, minorOf(allocations, i), r) == max0(old(usd(n, deviceType, minorOf(allocations, i), r)) - amt(allocations, i, r)))
+//@   ensures #removedom: !add ==> (forall i int :: 0 <= i && i < len(allocations) ==> (has(n.deviceUsed[deviceType], minorOf(allocations, i)) <==> (exists r corev1.ResourceName :: usd(n, deviceType, minorOf(allocations, i), r) != 0)))
+//@   ensures #removetype: !add ==> (has(n.deviceUsed, deviceType) <==> (exists m int :: has(n.deviceUsed[deviceType], m)))
+//@   ensures #untouched: forall m int :: !named(allocations, m) ==> n.deviceUsed[deviceType][m] == old(n.deviceUsed[deviceType][m]) && has(n.deviceUsed[deviceType], m) == old(has(n.deviceUsed[deviceType], m))
+//@   ensures #others: forall u schedulingv1alpha1.DeviceType :: u != deviceType ==> n.deviceUsed[u] == old(n.deviceUsed[u]) && has(n.deviceUsed, u) == old(has(n.deviceUsed, u))
+//@   ensures #otherledgers: forall u schedulingv1alpha1.DeviceType :: u != deviceType ==> ledgerSame(n, u)
+//@   ensures #totfree: forall m int, r corev1.ResourceName :: tot(n, deviceType, m, r) == old(tot(n, deviceType, m, r)) && fre(n, deviceType, m, r) == old(fre(n, deviceType, m, r))
+//@   ensures #rlframe: rlSame()
+//@   modifies contents(n.deviceUsed), contents(n.deviceUsed[deviceType]), allmaps(n.deviceUsed[deviceType][0]), allmaps(n.vfAllocations), all(VFAllocation).allocatedVFs, allmaps(n.vfAllocations[deviceType].allocatedVFs), allmaps(n.vfAllocations[deviceType].allocatedVFs[0]), allelems(anyStrings())
+//@   loop 1 invariant 0 <= $i && $i <= len(allocations)
+//@   loop 1 invariant deviceUsed != nil && n.deviceUsed[deviceType] == deviceUsed
+//@   loop 1 invariant add ==> (forall j int, r corev1.ResourceName :: {amt(allocations, j, r)} 0 <= j && j < $i ==> val(deviceUsed[minorOf(allocations, j)], r) == old(usd(n, deviceType, minorOf(allocations, j), r)) + amt(allocations, j, r))
+//@   loop 1 invariant add ==> (forall j int, r corev1.ResourceName :: 0 <= j && j < $i ==> (has(deviceUsed[minorOf(allocations, j)], r) <==> old(hasUsd(n, deviceType, minorOf(allocations, j), r)) || has(allocations[j].Resources, r)))
+//@   loop 1 invariant add ==> (forall j int :: 0 <= j && j < $i ==> has(deviceUsed, minorOf(allocations, j)))
+//@   loop 1 invariant !add ==> (forall j int, r corev1.ResourceName :: {amt(allocations, j, r)} 0 <= j && j < $i ==> val(deviceUsed[minorOf(allocations, j)], r) == max0(old(usd(n, deviceType, minorOf(allocations, j), r)) - amt(allocations, j, r)))
+//@   loop 1 invariant !add ==> (forall j int :: {minorOf(allocations, j)} 0 <= j && j < $i ==> (has(deviceUsed, minorOf(allocations, j)) <==> (exists r corev1.ResourceName :: val(deviceUsed[minorOf(allocations, j)], r) != 0)))
+//@   loop 1 invariant forall m int :: (forall j int :: 0 <= j && j < $i ==> minorOf(allocations, j) != m) ==> deviceUsed[m] == old(n.deviceUsed[deviceType][m]) && has(deviceUsed, m) == old(has(n.deviceUsed[deviceType], m))
+//@   loop 1 invariant rlSame()
+
+//@ spec func isPod(k types.NamespacedName, pod *corev1.Pod) bool = k.Namespace == pod.ObjectMeta.Namespace && k.Name == pod.ObjectMeta.Name
+
+//@ func (*nodeDevice).updateAllocateSet [C07]
+//@   requires allocSetOK(n) && pod != nil && allocsOK(allocations) && nnDef(pod.ObjectMeta.Namespace, pod.ObjectMeta.Name)
+//@   ensures #ok: allocSetOK(n)
+//@   ensures #ledgers: forall u schedulingv1alpha1.DeviceType :: ledgerSame(n, u)
+//@   let touch = n.deviceTotal[deviceType][0]
+//@   ensures #member: podIn(n.allocateSet[deviceType], pod.ObjectMeta.Namespace, pod.ObjectMeta.Name) <==> add
+//@   ensures #otherpods: forall k types.NamespacedName :: !isPod(k, pod) ==> has(n.allocateSet[deviceType], k) == old(has(n.allocateSet[deviceType], k)) && n.allocateSet[deviceType][k] == old(n.allocateSet[deviceType][k])
+//@   ensures #recorded: add ==> (forall k types.NamespacedName :: isPod(k, pod) ==> fresh(n.allocateSet[deviceType][k]) && (forall m int :: has(n.allocateSet[deviceType][k], m) <==> named(allocations, m)) && (forall i int, r corev1.ResourceName :: 0 <= i && i < len(allocations) ==> val(n.allocateSet[deviceType][k][minorOf(allocations, i)], r) == amt(allocations, i, r)))
+//@   ensures #inner: has(n.allocateSet, deviceType) && n.allocateSet[deviceType] != nil && (old(n.allocateSet[deviceType]) != nil ==> n.allocateSet[deviceType] == old(n.allocateSet[deviceType])) && (old(n.allocateSet[deviceType]) == nil ==> fresh(n.allocateSet[deviceType]))
+//@   ensures #othertypes: forall u schedulingv1alpha1.DeviceType :: u != deviceType ==> n.allocateSet[u] == old(n.allocateSet[u]) && has(n.allocateSet, u) == old(has(n.allocateSet, u))
+//@   ensures #rlframe: rlSame()
+//@   modifies contents(n.allocateSet), contents(n.allocateSet[deviceType]), allmaps(n.deviceTotal[deviceType][0])
+//@   loop 1 invariant 0 <= $i && $i <= len(allocations)
+//@   loop 1 invariant resources != nil && fresh(resources)
+//@   loop 1 invariant forall j int, r corev1.ResourceName :: 0 <= j && j < $i ==> val(resources[minorOf(allocations, j)], r) == amt(allocations, j, r)
+//@   loop 1 invariant forall m int :: has(resources, m) <==> (exists j int :: 0 <= j && j < $i && minorOf(allocations, j) == m)
+//@   loop 1 invariant rlSame()
+
+// ---- the cache update for one pod event (all device types of the pod's allocation) ----
+
+// applies(n, t, pod, add): the event is not a duplicate add / a remove of an absent pod for device type t.
+//@ spec func applies(n *nodeDevice, t schedulingv1alpha1.DeviceType, pod *corev1.Pod, add bool) bool = add <==> !podIn(n.allocateSet[t], pod.ObjectMeta.Namespace, pod.ObjectMeta.Name)
+// balanced(n, t): free = total - used on every minor and resource of type t (clamped at 0 on minors that are in use).
+//@ spec func balanced(n *nodeDevice, t schedulingv1alpha1.DeviceType) bool = forall m int, r corev1.ResourceName :: fre(n, t, m, r) == (has(n.deviceUsed[t], m) ? max0(tot(n, t, m, r) - usd(n, t, m, r)) : tot(n, t, m, r))
+// The used and free ledgers of type t hold the same amounts as on entry.
+//@ spec func usedFreeSame(n *nodeDevice, t schedulingv1alpha1.DeviceType) bool = forall m int, r corev1.ResourceName :: usd(n, t, m, r) == old(usd(n, t, m, r)) && fre(n, t, m, r) == old(fre(n, t, m, r)) && has(n.deviceUsed[t], m) == old(has(n.deviceUsed[t], m))
+
+// dal(da, t) names the allocation list da[t]. Written as an uninterpreted function with the definitional precondition
+// dalDef because the solvers loop on `da[t][i]` (a slice read out of a map, ite-guarded, under the slice-offset axiom).
+//@ spec func dal(da apiext.DeviceAllocations, t schedulingv1alpha1.DeviceType) []*apiext.DeviceAllocation
+//@ spec func dalDef(da apiext.DeviceAllocations) bool = forall t schedulingv1alpha1.DeviceType :: {has(da, t)} has(da, t) ==> arr(dal(da, t)) == arr(da[t]) && off(dal(da, t)) == off(da[t]) && len(dal(da, t)) == len(da[t])
+
+//@ func (*nodeDevice).updateCacheUsed [C07]
+//@   requires ledgersOK(n) && innerDistinct(n) && allocSetOK(n) && pod != nil && nnDef(pod.ObjectMeta.Namespace, pod.ObjectMeta.Name)
+//@   requires dalDef(deviceAllocations)
+//@   requires forall t schedulingv1alpha1.DeviceType :: has(deviceAllocations, t) ==> allocsOK(dal(deviceAllocations, t))
+//@   let touch = n.deviceUsed[""][0]
+//@   let touch2 = dal(deviceAllocations, "")[0].Resources
+//@   ensures #ok: ledgersOK(n) && innerDistinct(n) && allocSetOK(n)
+//@   ensures #total: forall t schedulingv1alpha1.DeviceType, m int, r corev1.ResourceName :: tot(n, t, m, r) == old(tot(n, t, m, r))
+//@   ensures #noop: forall t schedulingv1alpha1.DeviceType :: !(has(deviceAllocations, t) && old(applies(n, t, pod, add))) ==> usedFreeSame(n, t) && (podIn(n.allocateSet[t], pod.ObjectMeta.Namespace, pod.ObjectMeta.Name) <==> old(podIn(n.allocateSet[t], pod.ObjectMeta.Namespace, pod.ObjectMeta.Name)))
+//@   ensures #moved: forall t schedulingv1alpha1.DeviceType, i int, r corev1.ResourceName :: has(deviceAllocations, t) && old(applies(n, t, pod, add)) && 0 <= i && i < len(dal(deviceAllocations, t)) ==> usd(n, t, minorOf(dal(deviceAllocations, t), i), r) == (add ? old(usd(n, t, minorOf(dal(deviceAllocations, t), i), r)) + old(amt(dal(deviceAllocations, t), i, r)) : max0(old(usd(n, t, minorOf(dal(deviceAllocations, t), i), r)) - old(amt(dal(deviceAllocations, t), i, r))))
+//@   ensures #otherminors: forall t schedulingv1alpha1.DeviceType, m int, r corev1.ResourceName :: has(deviceAllocations, t) && old(applies(n, t, pod, add)) && !named(dal(deviceAllocations, t), m) ==> usd(n, t, m, r) == old(usd(n, t, m, r))
+//@   ensures #balanced: forall t schedulingv1alpha1.DeviceType :: has(deviceAllocations, t) && old(applies(n, t, pod, add)) ==> balanced(n, t)
+//@   ensures #member: forall t schedulingv1alpha1.DeviceType :: has(deviceAllocations, t) && old(applies(n, t, pod, add)) ==> (podIn(n.allocateSet[t], pod.ObjectMeta.Namespace, pod.ObjectMeta.Name) <==> add)
+//@   modifies contents(n.deviceUsed), contents(n.deviceFree), contents(n.deviceTotal), contents(n.allocateSet), allmaps(n.deviceUsed[""]), allmaps(n.deviceUsed[""][0]), allmaps(n.allocateSet[""]), allmaps(n.vfAllocations), all(VFAllocation).allocatedVFs, allmaps(n.vfAllocations[""].allocatedVFs), allmaps(n.vfAllocations[""].allocatedVFs[0]), allelems(anyStrings())
+//@   loop 1 invariant ledgersOK(n) && innerDistinct(n) && allocSetOK(n)
+//@   loop 1 invariant forall t schedulingv1alpha1.DeviceType, m int, r corev1.ResourceName :: tot(n, t, m, r) == old(tot(n, t, m, r))
+//@   loop 1 invariant forall t schedulingv1alpha1.DeviceType :: !($seen[t] && has(deviceAllocations, t) && old(applies(n, t, pod, add))) ==> usedFreeSame(n, t) && (podIn(n.allocateSet[t], pod.ObjectMeta.Namespace, pod.ObjectMeta.Name) <==> old(podIn(n.allocateSet[t], pod.ObjectMeta.Namespace, pod.ObjectMeta.Name)))
+//@   loop 1 invariant add ==> (forall t schedulingv1alpha1.DeviceType, i int, r corev1.ResourceName :: $seen[t] && has(deviceAllocations, t) && old(applies(n, t, pod, add)) && 0 <= i && i < len(dal(deviceAllocations, t)) ==> usd(n, t, minorOf(dal(deviceAllocations, t), i), r) == old(usd(n, t, minorOf(dal(deviceAllocations, t), i), r)) + old(amt(dal(deviceAllocations, t), i, r)))
+//@   loop 1 invariant !add ==> (forall t schedulingv1alpha1.DeviceType, i int, r corev1.ResourceName :: $seen[t] && has(deviceAllocations, t) && old(applies(n, t, pod, add)) && 0 <= i && i < len(dal(deviceAllocations, t)) ==> usd(n, t, minorOf(dal(deviceAllocations, t), i), r) == max0(old(usd(n, t, minorOf(dal(deviceAllocations, t), i), r)) - old(amt(dal(deviceAllocations, t), i, r))))
+//@   loop 1 invariant forall t schedulingv1alpha1.DeviceType, m int, r corev1.ResourceName :: $seen[t] && has(deviceAllocations, t) && old(applies(n, t, pod, add)) && !named(dal(deviceAllocations, t), m) ==> usd(n, t, m, r) == old(usd(n, t, m, r))
+//@   loop 1 invariant forall t schedulingv1alpha1.DeviceType :: $seen[t] && has(deviceAllocations, t) && old(applies(n, t, pod, add)) ==> balanced(n, t)
+//@   loop 1 invariant forall t schedulingv1alpha1.DeviceType :: $seen[t] && has(deviceAllocations, t) && old(applies(n, t, pod, add)) ==> (podIn(n.allocateSet[t], pod.ObjectMeta.Namespace, pod.ObjectMeta.Name) <==> add)
+//@   loop 1 invariant rlSame()
+//@   assert before call updateDeviceUsed: #same_slice: len($arg1) == len(dal(deviceAllocations, $arg0)) && arr($arg1) == arr(dal(deviceAllocations, $arg0)) && off($arg1) == off(dal(deviceAllocations, $arg0))
+//@   assert before call updateDeviceUsed: #not_yet: usedFreeSame(n, $arg0)
+//@   assert before call updateDeviceUsed: #amt_same: forall i int, r corev1.ResourceName :: 0 <= i && i < len($arg1) ==> amt($arg1, i, r) == old(amt($arg1, i, r))
+//@   assert after call updateDeviceUsed: #cur_updateDeviceUsed: (forall i int, r corev1.ResourceName :: 0 <= i && i < len(dal(deviceAllocations, $arg0)) ==> usd(n, $arg0, minorOf(dal(deviceAllocations, $arg0), i), r) == (add ? old(usd(n, $arg0, minorOf(dal(deviceAllocations, $arg0), i), r)) + old(amt(dal(deviceAllocations, $arg0), i, r)) : max0(old(usd(n, $arg0, minorOf(dal(deviceAllocations, $arg0), i), r)) - old(amt(dal(deviceAllocations, $arg0), i, r)))))
+//@   assert after call resetDeviceFree: #cur_resetDeviceFree: (forall i int, r corev1.ResourceName :: 0 <= i && i < len(dal(deviceAllocations, $arg0)) ==> usd(n, $arg0, minorOf(dal(deviceAllocations, $arg0), i), r) == (add ? old(usd(n, $arg0, minorOf(dal(deviceAllocations, $arg0), i), r)) + old(amt(dal(deviceAllocations, $arg0), i, r)) : max0(old(usd(n, $arg0, minorOf(dal(deviceAllocations, $arg0), i), r)) - old(amt(dal(deviceAllocations, $arg0), i, r)))))
+//@   assert after call updateAllocateSet: #cur_updateAllocateSet: (forall i int, r corev1.ResourceName :: 0 <= i && i < len(dal(deviceAllocations, $arg0)) ==> usd(n, $arg0, minorOf(dal(deviceAllocations, $arg0), i), r) == (add ? old(usd(n, $arg0, minorOf(dal(deviceAllocations, $arg0), i), r)) + old(amt(dal(deviceAllocations, $arg0), i, r)) : max0(old(usd(n, $arg0, minorOf(dal(deviceAllocations, $arg0), i), r)) - old(amt(dal(deviceAllocations, $arg0), i, r)))))
+
+// ---- inventory refresh ----
+
+// Value-level frame for the per-type inner maps (same reason as rlSame: the loop below allocates such maps).
+//@ spec func drSame() bool = forall d deviceResources, m int :: {d[m]} {has(d, m)} allocated(d) ==> d[m] == old(d[m]) && has(d, m) == old(has(d, m))
+// The new inventory is built from freshly made inner maps (buildDeviceResources / filter): none of them is one of the
+// node's used / free inner maps, and no two of them are the same object.
+//@ spec func inventoryOK(n *nodeDevice, res map[schedulingv1alpha1.DeviceType]deviceResources) bool = res != nil && res != n.deviceFree && res != n.deviceUsed && res != n.deviceTotal && (forall t schedulingv1alpha1.DeviceType, u schedulingv1alpha1.DeviceType :: res[t] != nil ==> res[t] != n.deviceUsed[u] && res[t] != n.deviceFree[u] && (t != u ==> res[t] != res[u]))
+//@ spec func inv(res map[schedulingv1alpha1.DeviceType]deviceResources, t schedulingv1alpha1.DeviceType, m int, r corev1.ResourceName) real = val(res[t][m], r)
+
+//@ func (*nodeDevice).resetDeviceTotal [C07]
+//@   requires ledgersOK(n) && innerDistinct(n) && inventoryOK(n, resources)
+//@   requires forall t schedulingv1alpha1.DeviceType :: has(resources, t) ==> resources[t] != nil
+//@   let touch = n.deviceUsed[""][0]
+//@   ensures #ok: ledgersOK(n) && innerDistinct(n)
+//@   ensures #installed: n.deviceTotal == resources
+//@   ensures #total: forall t schedulingv1alpha1.DeviceType, m int, r corev1.ResourceName :: tot(n, t, m, r) == old(inv(resources, t, m, r))
+//@   ensures #types: forall t schedulingv1alpha1.DeviceType :: has(n.deviceTotal, t) <==> old(has(resources, t)) || old(has(n.deviceTotal, t))
+//@   ensures #used: forall t schedulingv1alpha1.DeviceType, m int, r corev1.ResourceName :: usd(n, t, m, r) == old(usd(n, t, m, r)) && has(n.deviceUsed[t], m) == old(has(n.deviceUsed[t], m))
+//@   ensures #balanced: forall t schedulingv1alpha1.DeviceType :: has(n.deviceTotal, t) ==> balanced(n, t)
+//@   modifies n.deviceTotal, contents(resources), contents(n.deviceFree), allmaps(n.deviceUsed[""]), allmaps(n.deviceUsed[""][0])
+//@   loop 1 invariant forall t schedulingv1alpha1.DeviceType :: has(resources, t) <==> old(has(resources, t)) || ($seen[t] && old(has(n.deviceTotal, t)))
+//@   loop 1 invariant forall t schedulingv1alpha1.DeviceType :: old(has(resources, t)) ==> resources[t] == old(resources[t])
+//@   loop 1 invariant forall t schedulingv1alpha1.DeviceType :: has(resources, t) && !old(has(resources, t)) ==> fresh(resources[t]) && (forall m int :: !has(resources[t], m))
+//@   loop 1 invariant forall t schedulingv1alpha1.DeviceType, u schedulingv1alpha1.DeviceType :: has(resources, t) && has(resources, u) && t != u ==> resources[t] != resources[u]
+//@   loop 1 invariant drSame()
+//@   loop 2 invariant ledgersOK(n) && innerDistinct(n) && n.deviceTotal == resources
+//@   loop 2 invariant forall t schedulingv1alpha1.DeviceType :: has(resources, t) <==> old(has(resources, t)) || old(has(n.deviceTotal, t))
+//@   loop 2 invariant forall t schedulingv1alpha1.DeviceType, m int, r corev1.ResourceName :: tot(n, t, m, r) == old(inv(resources, t, m, r))
+//@   loop 2 invariant forall t schedulingv1alpha1.DeviceType, m int, r corev1.ResourceName :: usd(n, t, m, r) == old(usd(n, t, m, r)) && has(n.deviceUsed[t], m) == old(has(n.deviceUsed[t], m))
+//@   loop 2 invariant forall t schedulingv1alpha1.DeviceType :: $seen[t] && has(resources, t) ==> balanced(n, t)
+
+// ---- choosing devices for one request (defaultAllocateDevices) ----
+
+// (The sort contracts say: every entry of the result is an entry of the input (#from), and distinctness is kept.)
+// The candidate list P enumerates the minors of `free` exactly once, each with its free ResourceList:
+// pEach (every entry is a minor of free with its list), pDistinct (no minor twice). NOT PROVEN anywhere: that every minor
+// of free occurs in the list (an exists-witness invariant is not preservable through `append` in the engine).
+//@ spec func pEach(P []deviceResourceMinorPair, free deviceResources) bool = forall j int :: {P[j].minor} {P[j].resources} 0 <= j && j < len(P) ==> has(free, P[j].minor) && P[j].resources == free[P[j].minor]
+//@ spec func pDistinct(P []deviceResourceMinorPair) bool = forall i int, j int :: {P[i].minor, P[j].minor} 0 <= i && i < j && j < len(P) ==> P[i].minor != P[j].minor
+
+// The score of one device: reads the lists, calls the configured scorer (an observer), writes nothing that existed before.
+//@ func (*resourceAllocationScorer).scoreDevice [C07]
+//@   modifies allmaps(r.resourceToWeightMap)
+//@   option observers scorer
+
+//@ spec func anyPairs() []deviceResourceMinorPair
+//@ func scoreDevices [C07]
+//@   ensures #each: pEach(result, freeResources)
+//@   ensures #distinct: pDistinct(result)
+//@   modifies allelems(anyPairs()), allmaps(allocationScorer.resourceToWeightMap)
+//@   option observers scorer
+//@   loop 1 invariant forall j int :: 0 <= j && j < len(r) ==> $seen[r[j].minor] && has(freeResources, r[j].minor) && r[j].resources == freeResources[r[j].minor]
+//@   loop 1 invariant pDistinct(r)
+
+// seed(P, j) is trivially true; it mentions P[j].preferred because the engine's sort.Slice permutation facts are
+// triggered by the first struct leaf only.
+//@ spec func seed(P []deviceResourceMinorPair, j int) bool = (P[j].preferred ? 1 : 0) >= 0
+//@ func sortDeviceResourcesByMinor [C07]
+//@   ensures #from: forall j int :: {result[j].minor} {result[j].resources} 0 <= j && j < len(result) ==> seed(result, j) && (exists k int :: {old(r[k].minor)} 0 <= k && k < len(r) && result[j].minor == old(r[k].minor) && result[j].resources == old(r[k].resources))
+//@   ensures #distinct: old(pDistinct(r)) ==> (forall i int, j int :: 0 <= i && i < j && j < len(result) ==> seed(result, i) && seed(result, j) && result[i].minor != result[j].minor)
+//@   ensures #same: len(result) == len(r) && arr(result) == arr(r) && off(result) == off(r)
+//@   modifies elems(r)
+//@   loop 1 invariant 0 <= $i && $i <= len(r)
+//@   loop 1 invariant forall j int :: 0 <= j && j < len(r) ==> r[j].minor == old(r[j].minor) && r[j].resources == old(r[j].resources) && r[j].score == old(r[j].score)
+
+// SUMMARISED (trusted, not verified): regroups the sorted list by PCIe (map of slices, round-robin).
+//@ func sortDeviceResourcesByPreferredPCIe [C07]
+//@   ensures #from: forall j int :: {result[j].minor} {result[j].resources} 0 <= j && j < len(result) ==> seed(result, j) && (exists k int :: {old(r[k].minor)} 0 <= k && k < len(r) && result[j].minor == old(r[k].minor) && result[j].resources == old(r[k].resources))
+//@   ensures #distinct: old(pDistinct(r)) ==> pDistinct(result)
+//@   modifies elems(r)
+//@   option trusted
+
+// What quotav1.LessThanOrEqual(a, b) / quotav1.IsZero(a) decide (see /verif/lib/quota.spec).
+//@ spec func rlLE(a corev1.ResourceList, b corev1.ResourceList) bool = forall rn corev1.ResourceName :: {val(a, rn)} {val(b, rn)} has(b, rn) && has(a, rn) ==> val(a, rn) <= val(b, rn)
+//@ spec func rlZero(a corev1.ResourceList) bool = forall rn corev1.ResourceName :: {val(a, rn)} val(a, rn) == 0
+//@ spec func minorAt(as []*apiext.DeviceAllocation, a int) int = int(as[a].Minor)
+// nzw(l) is a choice function: for a list that is not all-zero it names one resource with a non-zero amount (uninterpreted,
+// pinned down by the definitional precondition nzDef). It lets the loop invariant carry "not all-zero" without an
+// existential; the postcondition still states !rlZero.
+//@ spec func nzw(l corev1.ResourceList) corev1.ResourceName
+//@ spec func nzDef() bool = forall l corev1.ResourceList :: {nzw(l)} !rlZero(l) ==> val(l, nzw(l)) != 0
+//@ spec func nonZeroAt(l corev1.ResourceList) bool = val(l, nzw(l)) != 0
+// Every candidate device's free list has every requested resource name.
+//@ spec func exposesAll(free deviceResources, req corev1.ResourceList) bool = forall m int, rn corev1.ResourceName :: has(free, m) && has(req, rn) ==> has(free[m], rn)
+
+// passes(P, j, ...): candidate j of the list passes the allocator's test (no virtual function needed).
+//@ spec func passes(P []deviceResourceMinorPair, j int, required sets.Int, req corev1.ResourceList) bool = (required.Len() == 0 || required.Has(P[j].minor)) && !rlZero(P[j].resources) && rlLE(req, P[j].resources)
+//@ spec func noVF(requestCtx *requestContext, t schedulingv1alpha1.DeviceType) bool = requestCtx.hints[t] == nil || requestCtx.hints[t].VFSelector == nil
+
+//@ func defaultAllocateDevices [C07]
+//@   requires nodeDevice != nil && requestCtx != nil && 1 <= desiredCount && desiredCount <= maxDesiredCount
+//@   requires nzDef()   // definitional (choice function), always satisfiable
+//@   let free = nodeDevice.deviceFree[deviceType]
+//@   let required = requestCtx.required[deviceType]
+//@   let touch = free[0]
+//@   ensures #count: result1 == nil ==> desiredCount <= len(result0) && len(result0) <= maxDesiredCount
+//@   ensures #failure: result1 != nil ==> len(result0) == 0
+//@   ensures #nonnil: result1 == nil ==> (forall a int :: 0 <= a && a < len(result0) ==> result0[a] != nil)
+//@   ensures #distinct: result1 == nil ==> (forall a int, b int :: 0 <= a && a < b && b < len(result0) ==> result0[a].Minor != result0[b].Minor)
+//@   ensures #required: result1 == nil && required.Len() > 0 ==> (forall a int :: 0 <= a && a < len(result0) ==> required.Has(minorAt(result0, a)))
+//@   ensures #fromfree: result1 == nil ==> (forall a int :: 0 <= a && a < len(result0) ==> has(free, minorAt(result0, a)))
+// Every chosen device's free list is not all-zero, in witness form: nonZeroAt(l) is val(l, nzw(l)) != 0, which implies
+// !rlZero(l) outright (whatever nzw is), so this is at least as strong as "forall a :: !rlZero(free[minor of a])".
+//@   ensures #nonzero: result1 == nil ==> (forall a int :: 0 <= a && a < len(result0) ==> nonZeroAt(free[minorAt(result0, a)]))
+//@   ensures #fits_exposed: result1 == nil ==> (forall a int, rn corev1.ResourceName :: 0 <= a && a < len(result0) && has(podRequestPerInstance, rn) && has(free[minorAt(result0, a)], rn) ==> val(podRequestPerInstance, rn) <= val(free[minorAt(result0, a)], rn))
+//@   ensures #gets: result1 == nil ==> (forall a int :: 0 <= a && a < len(result0) ==> result0[a].Resources == podRequestPerInstance)
+// Property wording: "each with at least the requested amount free at that moment" -- for EVERY requested resource.
+// Environment precondition (coordinator decision): inventories are reported per device type with a fixed set of resource
+// names and the request is derived per type, so every candidate device exposes every requested name; under that
+// hypothesis the clause holds. NOTED LIMITATION of the code's comparison (quotav1.LessThanOrEqual only inspects names
+// present in both lists): without the hypothesis it fails, e.g. one FPGA device minor 0 with free {example.com/b: 1},
+// request {example.com/a: 5}, desiredCount = maxDesiredCount = 1 -> success on minor 0 although its free a is 0.
+//@   ensures #enough_free: result1 == nil && exposesAll(free, podRequestPerInstance) ==> (forall a int, rn corev1.ResourceName :: 0 <= a && a < len(result0) && has(podRequestPerInstance, rn) ==> val(podRequestPerInstance, rn) <= val(free[minorAt(result0, a)], rn))
+//@   loop 2 invariant 0 <= $i && $i <= len($range) && pEach($range, free) && pDistinct($range)
+//@   loop 2 invariant len(allocations) <= $i && len(allocations) < maxDesiredCount
+//@   loop 2 invariant forall a int :: {allocations[a]} 0 <= a && a < len(allocations) ==> allocations[a] != nil && fresh(allocations[a]) && allocations[a].Resources == podRequestPerInstance && (exists j int :: 0 <= j && j < $i && $range[j].minor == minorAt(allocations, a))
+//@   loop 2 invariant forall a int :: {allocations[a]} 0 <= a && a < len(allocations) ==> has(free, minorAt(allocations, a)) && (required.Len() > 0 ==> required.Has(minorAt(allocations, a)))
+//@   loop 2 invariant forall a int :: {allocations[a]} 0 <= a && a < len(allocations) ==> nonZeroAt(free[minorAt(allocations, a)])   // witness form of !rlZero
+//@   loop 2 invariant forall a int :: {allocations[a]} 0 <= a && a < len(allocations) ==> rlLE(podRequestPerInstance, free[minorAt(allocations, a)])
+//@   loop 2 invariant forall a int, b int :: {allocations[a], allocations[b]} 0 <= a && a < b && b < len(allocations) ==> allocations[a].Minor != allocations[b].Minor
+// Failure => fewer than desiredCount devices pass. Witness form: at the point of failure fewer than desiredCount candidates
+// were taken, and (below, DISABLED) every passing candidate of the duplicate-free list was taken. The disabled pair of
+// clauses does discharge, but its append edge (loop2/inv#taken/preserve~5) needs ~42 s and a lucky solver seed: the
+// exists-witness has to be carried through `append`, whose copy axiom is stated over a store-wrapped element heap that
+// E-matching does not connect to the old elements. Kept here for when the engine's append axiom improves.
+//   loop 2 invariant #taken: noVF(requestCtx, deviceType) ==> (forall j int :: 0 <= j && j < $i && passes($range, j, required, podRequestPerInstance) ==> (exists a int :: 0 <= a && a < len(allocations) && minorAt(allocations, a) == $range[j].minor))
+//   assert before call NewStatus: #complete: noVF(requestCtx, deviceType) ==> (forall j int :: 0 <= j && j < len(resourceMinorPairs) && passes(resourceMinorPairs, j, required, podRequestPerInstance) ==> (exists a int :: 0 <= a && a < len(allocations) && minorAt(allocations, a) == resourceMinorPairs[j].minor))
+//@   assert after call scoreDevices: #scored: pEach(result, free) && pDistinct(result)
+//@   assert after call sortDeviceResourcesByMinor: #sorted_minor: pEach(result, free) && pDistinct(result)
+//@   assert after call sortDeviceResourcesByPreferredPCIe: #sorted_pcie: pEach(result, free) && pDistinct(result)
+//@   assert after call IsZero: #witness: !result ==> nonZeroAt($arg0)
+//@   assert before call NewStatus: #fewer: len(allocations) < desiredCount && pDistinct(resourceMinorPairs)
+
+// ---- what a pod may allocate from: free plus what preemption would release, capped by a reservation ----
+
+// avail(n, t, pre, m, r): total - max0(used - preemptible), never below 0.
+//@ spec func avail(n *nodeDevice, t schedulingv1alpha1.DeviceType, pre deviceResources, m int, r corev1.ResourceName) real = max0(tot(n, t, m, r) - max0(usd(n, t, m, r) - val(pre[m], r)))
+//@ spec func nonNegDR(d deviceResources) bool = forall m int, r corev1.ResourceName :: val(d[m], r) >= 0
+
+// In-use amounts are non-negative (they are sums of non-negative allocations; removal clamps at 0).
+//@ spec func usedNonNeg(n *nodeDevice, t schedulingv1alpha1.DeviceType) bool = forall m int, r corev1.ResourceName :: usd(n, t, m, r) >= 0
+
+//@ func (*nodeDevice).calcFreeWithPreemptible [C07]
+//@   requires n != nil && balanced(n, deviceType) && totNonNeg(n, deviceType) && usedNonNeg(n, deviceType)
+//@   requires nonNegDR(preemptible) && nonNegDR(requiredDeviceResources)
+//@   ensures #bound: forall m int, r corev1.ResourceName :: val(result[m], r) <= avail(n, deviceType, preemptible, m, r)
+//@   ensures #nonneg: forall m int, r corev1.ResourceName :: val(result[m], r) >= 0
+//@   ensures #required: len(requiredDeviceResources) > 0 ==> (forall m int :: has(result, m) ==> has(requiredDeviceResources, m)) && (forall m int, r corev1.ResourceName :: val(result[m], r) <= val(requiredDeviceResources[m], r))
+//@   ensures #rlframe: rlSame()
+//@   modifies allmaps(n.deviceFree[deviceType][0])
+//@   loop 1 invariant mergedFreeDevices != nil && fresh(mergedFreeDevices)
+//@   loop 1 invariant forall m int :: has(mergedFreeDevices, m) ==> mergedFreeDevices[m] != nil
+//@   loop 1 invariant forall m int, r corev1.ResourceName :: has(mergedFreeDevices, m) ==> val(mergedFreeDevices[m], r) == avail(n, deviceType, preemptible, m, r)
+//@   loop 2 invariant mergedFreeDevices != nil && fresh(mergedFreeDevices)
+//@   loop 2 invariant forall m int, r corev1.ResourceName :: has(mergedFreeDevices, m) ==> 0 <= val(mergedFreeDevices[m], r) && val(mergedFreeDevices[m], r) <= old(avail(n, deviceType, preemptible, m, r))
+//@   loop 2 invariant rlSame()
+//@   loop 3 invariant requiredDeviceFree != nil && fresh(requiredDeviceFree)
+//@   loop 3 invariant forall m int :: has(requiredDeviceFree, m) ==> has(requiredDeviceResources, m)
+//@   loop 3 invariant forall m int, r corev1.ResourceName :: has(requiredDeviceFree, m) ==> 0 <= val(requiredDeviceFree[m], r) && val(requiredDeviceFree[m], r) <= old(avail(n, deviceType, preemptible, m, r)) && val(requiredDeviceFree[m], r) <= val(requiredDeviceResources[m], r)
+
+// ---- inventory refresh from a Device object ----
+
+//@ spec func outerSame() bool = forall o map[schedulingv1alpha1.DeviceType]deviceResources, t schedulingv1alpha1.DeviceType :: {o[t]} {has(o, t)} allocated(o) ==> o[t] == old(o[t]) && has(o, t) == old(has(o, t))
+//@ spec func anyDR() deviceResources
+//@ spec func anyRL() corev1.ResourceList
+
+// The inventory built from a Device object consists of freshly made, pairwise distinct, non-nil inner maps.
+//@ func buildDeviceResources [C07]
+//@   requires device != nil
+//@   ensures #fresh: result != nil && fresh(result) && (forall t schedulingv1alpha1.DeviceType :: has(result, t) ==> result[t] != nil) && (forall t schedulingv1alpha1.DeviceType :: result[t] != nil ==> fresh(result[t]))
+//@   ensures #distinct: forall t schedulingv1alpha1.DeviceType, u schedulingv1alpha1.DeviceType :: t != u && result[t] != nil ==> result[t] != result[u]
+//@   ensures #frames: drSame() && rlSame() && outerSame()
+//@   modifies inferred
+//@   loop 1 invariant nodeDeviceResource != nil && fresh(nodeDeviceResource)
+//@   loop 1 invariant forall t schedulingv1alpha1.DeviceType :: (has(nodeDeviceResource, t) ==> nodeDeviceResource[t] != nil) && (nodeDeviceResource[t] != nil ==> fresh(nodeDeviceResource[t]))
+//@   loop 1 invariant forall t schedulingv1alpha1.DeviceType, u schedulingv1alpha1.DeviceType :: t != u && nodeDeviceResource[t] != nil ==> nodeDeviceResource[t] != nodeDeviceResource[u]
+//@   loop 1 invariant drSame() && rlSame()
+
+//@ spec func emptyLedgers(d *nodeDevice) bool = forall t schedulingv1alpha1.DeviceType :: d.deviceTotal[t] == nil && d.deviceUsed[t] == nil && d.deviceFree[t] == nil
+
+//@ func (*nodeDeviceCache).getNodeDevice [C07]
+//@   requires n != nil && n.nodeDeviceInfos != nil
+//@   ensures #same: old(n.nodeDeviceInfos[nodeName]) != nil ==> result == old(n.nodeDeviceInfos[nodeName])
+//@   ensures #init: needInit ==> result != nil && result == n.nodeDeviceInfos[nodeName]
+//@   ensures #new: needInit && old(n.nodeDeviceInfos[nodeName]) == nil ==> fresh(result) && ledgersOK(result) && emptyLedgers(result) && fresh(result.deviceTotal) && fresh(result.deviceUsed) && fresh(result.deviceFree)
+//@   modifies contents(n.nodeDeviceInfos)
+
+// GPU topology index built during a refresh: frame only -- it writes nothing but maps it has just made.
+//@ func GetGPUTopologyScope [C07]
+//@   ensures #frames: drSame() && rlSame() && outerSame()
+//@   modifies inferred
+//@   loop 1 invariant numaTopologyScopeIndexer != nil && fresh(numaTopologyScopeIndexer) && pcieTopologyScopeIndexer != nil && fresh(pcieTopologyScopeIndexer)
+//@   loop 1 invariant forall k int32 :: numaTopologyScopeIndexer[k] != nil ==> fresh(numaTopologyScopeIndexer[k])
+//@   loop 1 invariant forall k int32 :: pcieTopologyScopeIndexer[k] != nil ==> fresh(pcieTopologyScopeIndexer[k])
+//@   loop 1 invariant forall k int32, p string :: pcieTopologyScopeIndexer[k][p] != nil ==> fresh(pcieTopologyScopeIndexer[k][p])
+//@   loop 1 invariant drSame()
+
+//@ func (*nodeDeviceCache).updateNodeDevice [C07]
+//@   requires n != nil && n.nodeDeviceInfos != nil
+//@   requires n.nodeDeviceInfos[nodeName] != nil ==> ledgersOK(n.nodeDeviceInfos[nodeName]) && innerDistinct(n.nodeDeviceInfos[nodeName])
+//@   ensures #noop: nodeName == "" || device == nil ==> n.nodeDeviceInfos[nodeName] == old(n.nodeDeviceInfos[nodeName])
+//@   ensures #total: nodeName != "" && device != nil ==> n.nodeDeviceInfos[nodeName] != nil && (forall t schedulingv1alpha1.DeviceType, m int, r corev1.ResourceName :: tot(n.nodeDeviceInfos[nodeName], t, m, r) == val(lastresult("buildDeviceResources")[t][m], r))
+//@   ensures #balanced: nodeName != "" && device != nil ==> (forall t schedulingv1alpha1.DeviceType :: has(n.nodeDeviceInfos[nodeName].deviceTotal, t) ==> balanced(n.nodeDeviceInfos[nodeName], t))
+//@   ensures #used: nodeName != "" && device != nil && old(n.nodeDeviceInfos[nodeName]) != nil ==> (forall t schedulingv1alpha1.DeviceType, m int, r corev1.ResourceName :: usd(n.nodeDeviceInfos[nodeName], t, m, r) == old(usd(n.nodeDeviceInfos[nodeName], t, m, r)))
+//@   assert after call buildDeviceResources: #used_after_build: n.nodeDeviceInfos[nodeName] != nil ==> (forall t schedulingv1alpha1.DeviceType, m int, r corev1.ResourceName :: usd(n.nodeDeviceInfos[nodeName], t, m, r) == old(usd(n.nodeDeviceInfos[nodeName], t, m, r)))
+//@   assert before call resetDeviceTotal: #used_before_reset: old(n.nodeDeviceInfos[nodeName]) != nil ==> (forall t schedulingv1alpha1.DeviceType, m int, r corev1.ResourceName :: usd($recv, t, m, r) == old(usd($recv, t, m, r)))
